@@ -666,6 +666,16 @@ func c18Hazard(in *c18In) string {
 	if in.NoAE {
 		ae = ""
 	}
+	if in.Kind == "static" {
+		// an element that strings.TrimSpace turns into the name of a sibling coding while the
+		// RFC's OWS (SP / HTAB) trimming does not: Unicode white space around the name
+		for _, e := range strings.Split(ae, ",") {
+			t := strings.TrimSpace(e)
+			if (t == "gzip" || t == "br" || t == "zstd") && strings.Trim(e, " \t") != t {
+				return "ae:unicode-space"
+			}
+		}
+	}
 	if strings.Contains(ae, "gzip") && !c18RFCOffersGzip(ae) {
 		if strings.Contains(strings.ReplaceAll(ae, " ", ""), "gzip;q=0") {
 			return "ae:gzip-q0"
@@ -1232,9 +1242,9 @@ func c18Gen(r *Rand, tier string) []interface{} {
 	// shifted by one draw; re-seed from a mixed output to decorrelate VERIF_SEED values
 	r = NewRand(r.U64())
 	var out []interface{}
-	nCfg, perCfgScript, perCfgStatic, nBig, nExt, nBurst := 14, 70, 60, 16, 150, 10
+	nCfg, perCfgScript, perCfgStatic, nBig, nExt, nBurst, nMatrix := 14, 70, 60, 16, 150, 10, 160
 	if tier == "thorough" {
-		nCfg, perCfgScript, perCfgStatic, nBig, nExt, nBurst = 48, 220, 180, 120, 1500, 80
+		nCfg, perCfgScript, perCfgStatic, nBig, nExt, nBurst, nMatrix = 48, 220, 180, 120, 1500, 80, 1800
 	}
 	c18Fixture()
 	var names []string
@@ -1300,6 +1310,62 @@ func c18Gen(r *Rand, tier string) []interface{} {
 			pickAE(in, hz)
 			out = append(out, in)
 		}
+	}
+	// precompressed siblings: the full matrix siblings on disk (8) x codings offered (8) in the
+	// plain spelling, then random sibling sets x per-coding spellings (parameters, q-values,
+	// case, blanks, Unicode white space, near misses) in random order
+	codings := []string{"zstd", "br", "gzip"}
+	for mask := 0; mask < 8; mask++ {
+		for off := 0; off < 8; off++ {
+			var parts []string
+			for b, c := range codings {
+				if off&(4>>uint(b)) != 0 {
+					parts = append(parts, c)
+				}
+			}
+			if len(parts) == 0 {
+				parts = []string{"identity"}
+			}
+			cfgs := []c18Cfg{{}}
+			if (mask+off)%3 == 0 {
+				cfgs = c18GenCfgs(r)
+			}
+			out = append(out, &c18In{Kind: "static", Cfgs: cfgs, Method: "GET", Path: "/" + c18FixName("", mask, 37, ".html"), AE: strings.Join(parts, ", ")})
+		}
+	}
+	spell := []string{"%s", "%s", "%s", "%s;q=0", "%s; q=0.0", "%s;q=0.000", "%s ;q=0", "%s;Q=0", "%s;q=1", "%s;q=0.5", "%s;q=", " %s ", "\t%s",
+		"x%s", "%sx", "%s\u00a0", "\u2003%s", "%s\u0085", "%s;level=1"}
+	for i := 0; i < nMatrix; i++ {
+		var parts []string
+		for _, c := range codings {
+			if r.Chance(30) {
+				continue
+			}
+			sp := fmt.Sprintf(r.Pick(spell), c)
+			if r.Chance(8) {
+				sp = strings.ToUpper(sp)
+			}
+			parts = append(parts, sp)
+		}
+		if r.Chance(25) {
+			parts = append(parts, r.Pick([]string{"identity", "*", "*;q=0", "deflate", "identity;q=0"}))
+		}
+		perm := r.Perm(len(parts))
+		ps := make([]string, len(parts))
+		for a, b := range perm {
+			ps[a] = parts[b]
+		}
+		cfgs := []c18Cfg{{}}
+		if r.Chance(40) {
+			cfgs = c18GenCfgs(r)
+		}
+		in := &c18In{Kind: "static", Cfgs: cfgs, Method: "GET",
+			Path: "/" + c18FixName(r.Pick(c18FixDirs), r.Intn(8), c18PickInt(r, []int{0, 37, 400}), r.Pick(c18FixExts)),
+			AE:   strings.Join(ps, r.Pick([]string{",", ", ", " , "}))}
+		if r.Chance(6) {
+			in.Method = "HEAD"
+		}
+		out = append(out, in)
 	}
 	for i := 0; i < nBig; i++ {
 		in := &c18In{Kind: "big", Cfgs: []c18Cfg{{Level: r.Pick([]string{"", "1", "9"})}}, Method: "GET", Path: "/big.txt",
